@@ -88,6 +88,9 @@ type Heap struct {
 	etype map[string]types.Type // Go type of the values a component holds (innermost element), where known
 	// elemType remembers the Go type stored in a component where known (for load-time facts).
 	epochN int
+	// noQuantBase: the unit's contract has no quantifier, so the universally quantified typing facts of fresh
+	// component versions are left out (every loaded value still gets its typing fact at the load)
+	noQuantBase bool
 }
 
 func NewHeap(sc *Script) *Heap {
@@ -133,6 +136,9 @@ func (h *Heap) baseFacts(name string, arr Term, top Term) {
 				h.sc.Assume(T(fmt.Sprintf("(= (select %s 0) ((as const (Array %s Bool)) false))", arr.S, parts[0]), SBool))
 			}
 		}
+		return
+	}
+	if h.noQuantBase {
 		return
 	}
 	t, ok := h.etype[name]
